@@ -24,3 +24,7 @@ PROPS["C02"] = dict(pkg="chain", level="exploration", stages=[
 PROPS["C03"] = dict(pkg="chain", level="fault_enumeration", stages=[
     rapid("rapid", "TestC03", dict(shards=16, checks=50), dict(shards=16, checks=1200, timeout=7000)),
 ])
+
+PROPS["C19"] = dict(pkg="chain", level="exploration", stages=[
+    rapid("rapid", "TestC19", dict(shards=16, checks=120), dict(shards=16, checks=4000, timeout=7000)),
+])
